@@ -5,7 +5,7 @@ import isoutil as iu
 ID = 'C08'
 RULE = ('byte strings near the valid language: well-formed messages and their mutations — each length digit replaced by sign, '
         'space, underscore, NUL, EBCDIC/ASCII cross digits and superscript digits; whole prefixes and the MTI written in the other encoding family; lengths rewritten to point before, at and past '
-        'the end; bitmap bits added/removed; truncation and extension by 1..3 bytes — under packaged and generated '
+        'the end; bitmap bits added/removed; truncation and extension by 1..3 bytes; the same raw text under different configurations with earlier calls in the same process (same dict edited in place, short-lived copies), a date text valid under another format only — under packaged and generated '
         'configurations, ASCII/EBCDIC codecs, binary/hex bitmap; judged against an independent strict reference decoder (accept) '
         'and an independent frame recomputation (tiling, value = content of own bytes); non-trivial = distinct input accepted by '
         'the implementation or by the reference decoder')
@@ -48,6 +48,30 @@ def gen(rng, tier):
                 except (iu.Refused, UnicodeEncodeError):
                     continue
                 cases.append({'cfg': cfg_obj, 'codec': codec, 'hex': False, 'bytes': b.hex(), 'mut': 'valid-long'})
+    # the same raw text under different configurations, with earlier calls in the same process (caches, shared state)
+    for cc in iu.collision_cases(rng, 60 if tier == 'quick' else 1500):
+        try:
+            b = iu.ref_wire(iu.dict_of_text(cc['msg']), cc['cfg'], cc['codec'], cc['hex'])
+            warm = [dict(cfg=w['cfg'], codec=w['codec'], hex=w['hex'], how=w.get('how', 'plain'),
+                         bytes=iu.ref_wire(iu.dict_of_text(w['msg']), w['cfg'], w['codec'], w['hex']).hex()) for w in cc.get('warm', [])]
+        except (iu.Refused, UnicodeEncodeError):
+            continue
+        cases.append({'cfg': cc['cfg'], 'codec': cc['codec'], 'hex': cc['hex'], 'bytes': b.hex(), 'mut': 'collision', 'warm': warm})
+    # a date text that converts under one format only: decoded first under that format (accepted), then - the case itself -
+    # under a format of the same width for which it is not a date (must be refused)
+    for i in range(40 if tier == 'quick' else 800):
+        codec = rng.choice(['latin_1', 'cp500', 'ascii', 'cp037'])
+        bit = rng.randrange(2, 65)
+        good, bad_, digits = rng.choice([('%y%m%d', '%d%m%y', '%02d%02d%02d' % (rng.randint(32, 99), rng.randint(1, 12), rng.randint(13, 28))),
+                                         ('%d%m%y', '%y%m%d', '%02d%02d%02d' % (rng.randint(13, 28), rng.randint(1, 12), rng.randint(32, 99))),
+                                         ('%H%M%S', '%y%m%d', '%02d%02d%02d' % (rng.randint(0, 23), rng.randint(13, 59), rng.randint(32, 59))),
+                                         ('%m%d', '%H%M', '%02d%02d' % (rng.randint(1, 12), rng.randint(24, 28)))])
+        mk = lambda f: {str(bit): {'field_name': 'd', 'field_type': 'FIXED', 'field_length': len(digits), 'field_python_type': 'datetime', 'field_date_format': f}}
+        bm = bytearray(16)
+        bm[(bit - 1) // 8] |= 1 << (7 - (bit - 1) % 8)
+        b = '1144'.encode(codec) + bytes(bm) + digits.encode(codec)
+        cases.append({'cfg': mk(bad_), 'codec': codec, 'hex': False, 'bytes': b.hex(), 'mut': 'date-other-format',
+                      'warm': [{'cfg': mk(good), 'codec': codec, 'hex': False, 'bytes': b.hex(), 'how': ['plain', 'inplace', 'fresh'][i % 3]}]})
     nb = 140 if tier == 'quick' else 2000
     for i in range(nb):
         codec = ['latin_1', 'cp500', 'ascii', 'cp037', 'cp1252', 'cp875'][i % 6]
@@ -118,7 +142,8 @@ def gen(rng, tier):
 def impl(case):
     from cardutil import iso8583
     b = bytes.fromhex(case['bytes'])
-    return {'out': outcome(lambda: iso8583.loads(b, encoding=case['codec'], iso_config=case['cfg'], hex_bitmap=case['hex']), iu.dict_text)}
+    cfg = iu.run_warm(case, lambda w, c: iso8583.loads(bytes.fromhex(w['bytes']), encoding=w['codec'], iso_config=c, hex_bitmap=w['hex']))
+    return {'out': outcome(lambda: iso8583.loads(b, encoding=case['codec'], iso_config=cfg, hex_bitmap=case['hex']), iu.dict_text)}
 
 
 def model_lines(case, io_):
@@ -166,7 +191,7 @@ def judge(case, io_, mo):
 
 
 def nontrivial(case, io_):
-    return io_.get('out', '').startswith('OK ') or case['mut'] in ('valid', 'valid-long', 'prefix-digit', 'prefix-value', 'cross-prefix', 'cross-mti')
+    return io_.get('out', '').startswith('OK ') or case['mut'] in ('valid', 'valid-long', 'prefix-digit', 'prefix-value', 'cross-prefix', 'cross-mti', 'collision', 'date-other-format')
 
 
 def label(case):
